@@ -247,6 +247,9 @@ def parse_iso8601(
             else:
                 off_hour, off_minute = tz.split(":")
 
+            if int(off_hour) > 23 or int(off_minute) > 59:
+                raise ParserError("Invalid timezone offset")
+
             offset = ((int(off_hour) * 60) + int(off_minute)) * 60
 
             if negative:
